@@ -532,7 +532,7 @@ impl RunState {
                 let start = self.reg(0);
                 'string: for addr in (0..=u16::MAX).map(|offset| start.wrapping_add(offset)) {
                     let chr_raw = self.mem(addr);
-                    for chr in [chr_raw >> 8, chr_raw & 0xFF] {
+                    for chr in [chr_raw & 0xFF, chr_raw >> 8] {
                         let chr_ascii = chr as u8 as char;
                         if chr_ascii == '\0' {
                             break 'string;
